@@ -176,6 +176,12 @@ CORPUS = {
         join(1, authid="a"), join(2, authid="b"),
         call(1, 1, "wamp.session.add_testament", args=L(S("x.y"), L(I(1)), D()), kwargs=D(publish_options=D())),
         call(0, 2, "wamp.session.kill_all")]),
+    # 9902628  a testament with passthru options must not end the meta session
+    ("C05", "testament-passthru-keeps-meta-session"): dict(realms=[{}], ops=OBS + [
+        join(1, authid="a"), sub(0, 2, "x.y"),
+        call(1, 1, "wamp.session.add_testament", args=L(S("x.y"), L(I(1)), D()), kwargs=D(publish_options=D(ppt_scheme=S("x_custom")))),
+        drop(1),
+        join(2, authid="b"), call(2, 1, "wamp.session.count")]),
     ("C18", "kill-all-on-leave"): dict(realms=[{"kill": True}], ops=OBS + [
         join(1, authid="a"), join(2, authid="b"), sub(0, 2, "wamp.session.on_leave"),
         call(0, 3, "wamp.session.kill_all", kwargs=D(reason=S("app.done"), message=S("bye")))]),
